@@ -118,8 +118,8 @@ pub fn leaves() -> Vec<V> {
     l
 }
 
-pub const KEYS: [&[u8]; 6] = [b"", b"a", b"aa", b"ab", b"b", b"a\x00"];
-const KEYS_R: [&[u8]; 3] = [b"", b"a", b"ab"];
+pub const KEYS: [&[u8]; 9] = [b"", b"a", b"aa", b"ab", b"b", b"a\x00", b"\x80", b"\xc3\xa9", b"\xc3"];
+const KEYS_R: [&[u8]; 4] = [b"", b"a", b"ab", b"\xc3"];
 
 fn reduced_leaves() -> Vec<V> {
     vec![V::Int(-1), V::Str(vec![]), V::Str(b"i1e".to_vec())]
